@@ -144,7 +144,14 @@ Print Assumptions C20_iknp_chunks_total.
    with b = 0 / 1 in all four combinations, a in {0,1}, before either sender
    speaks; (b) four free-running sessions x 50 rounds with independent random
    operands; four vole Sender/Receiver pairs running their Mul calls at the
-   same time (these are also correspondence cases). *)
+   same time (these are also correspondence cases).
+   Other ways in (notes/C20-findings.md, table "Doors"): the model's vectors
+   are immutable lists of integers, so argument aliasing, in-place changes of
+   arguments, result buffers reused by later calls, nil elements, the
+   transport, the runtime configuration and the real caller bmr.Player do
+   not exist in it; each of them is driven by harness c20 in every run with
+   the same share relation as oracle (and as correspondence cases wherever
+   the observable is one the model has). *)
 
 (* Every OT that delivers the chosen label, every 4-byte random label rl of
    the sender, a, b in {0,1}: FxSend returns r, FxReceive returns xb, both
